@@ -107,15 +107,6 @@ inductive GShape (E : Env) (gs : GS) : GS → Prop
       make_layout E gs.cap gs.align = .ok L0 → gs.L ≤ c →
       GShape E gs (gs.grown c gs.align (.realloc L0.size L0.align L.size))
 
-/-- the matching memory states -/
-inductive MemAfter (X : Ctx) (s : St) (es : List Elem) : GS → St → Prop
-  | same : MemAfter X s es (hsOf s.v s.sys.allocIdx) s
-  | refused (req : Action) (evs : List Ev) :
-      MemAfter X s es ((hsOf s.v s.sys.allocIdx).refused req) { s with sys := s.sys.req evs false }
-  | grown (c a : Nat) (req : Action) (v' : VSt) (evs : List Ev) : Abs X v' es → v'.isDefault = false →
-      v'.cap = c → v'.align = a → v'.len = es.length →
-      MemAfter X s es ((hsOf s.v s.sys.allocIdx).grown c a req) { sys := s.sys.req evs true, v := v' }
-
 theorem refusedReq_replay (c : Cfg) (sys : Sys) (blk : Option Blk) (req : Action) (h : req.refusedReq = true) :
     ∃ evs, replay c { sys := sys, blk := blk, fresh := none } [req] =
       { sys := sys.req evs false, blk := blk, fresh := none } := by
@@ -123,74 +114,74 @@ theorem refusedReq_replay (c : Cfg) (sys : Sys) (blk : Option Blk) (req : Action
   · exact ⟨_, replay_alloc_fail ..⟩
   · exact ⟨_, replay_realloc_fail ..⟩
 
-/-- Any decision program whose final header state has one of the `grow` shapes acts on a
-    well-formed handle like `grow` does: elements preserved, the block quoted correctly. -/
-theorem lift_shape {α} (X : Ctx) (g : GM α) (s : St) (es : List Elem) (h : Abs X s.v es)
-    (hs : GShape X.env (hsOf s.v s.sys.allocIdx) (g (hsOf s.v s.sys.allocIdx)).2)
-    (hreq : ∀ req, (g (hsOf s.v s.sys.allocIdx)).2 = (hsOf s.v s.sys.allocIdx).refused req → req.refusedReq = true) :
-    ∃ s', VM.lift X g s = ((g (hsOf s.v s.sys.allocIdx)).1, s') ∧
-      MemAfter X s es (g (hsOf s.v s.sys.allocIdx)).2 s' := by
-  have hL : (hsOf s.v s.sys.allocIdx).L = es.length := h.len_eq
+/-- a program that ends with one refused request: only the log and the counter move -/
+theorem lift_refused {α} (X : Ctx) (g : GM α) (s : St) (req : Action) (res : Except Panic α)
+    (hg : g (hsOf s.v s.sys.allocIdx) = (res, (hsOf s.v s.sys.allocIdx).refused req))
+    (hreq : req.refusedReq = true) :
+    ∃ evs, VM.lift X g s = (res, { s with sys := s.sys.req evs false }) := by
   have hsame : withHdr (hsOf s.v s.sys.allocIdx) s.v.blk = s.v := rfl
   have hacts : (hsOf s.v s.sys.allocIdx).acts = [] := rfl
-  rw [lift_run]
-  generalize hout : g (hsOf s.v s.sys.allocIdx) = out at hs hreq
-  obtain ⟨res, gs'⟩ := out
-  simp only at hs hreq ⊢
-  cases hs with
-  | same =>
-    refine ⟨s, ?_, .same⟩
-    simp only [hacts, replay, List.foldl_nil]
-    rw [hsame]; rfl
-  | refused req =>
-    obtain ⟨evs, hev⟩ := refusedReq_replay X.c s.sys s.v.blk req (hreq req rfl)
-    refine ⟨{ s with sys := s.sys.req evs false }, ?_, .refused req evs⟩
-    simp only [GS.refused, hacts, List.nil_append, hev]
-    show (_, ({ sys := _, v := withHdr (hsOf s.v s.sys.allocIdx) s.v.blk } : St)) = _
-    rw [hsame]
-  | grownAlloc c a L hd hLy =>
-    have hd' : s.v.isDefault = true := hd
-    have hnil : es = [] := (h.sentinel hd').2
-    have hblk : s.v.blk = none := (h.sentinel hd').1
-    have hLa : L.align = a := (make_layout_honest _ _ _ _ hLy).2.1
-    have hLeq : (⟨L.size, a⟩ : Layout) = L := by cases L; simp at hLa ⊢; exact hLa.symm
-    simp only [GS.grown, hacts, List.nil_append, hblk, replay_alloc_install]
-    refine ⟨_, rfl, .grown c a _ _ _ ?_ rfl rfl rfl (by simp [withHdr, hL, hnil])⟩
-    subst hnil
-    refine ⟨h.elem_pos, fun hx => by simp [withHdr] at hx, fun _ => ⟨_, rfl, ?_, ?_, ?_, ?_, ?_⟩⟩
-    · simp only [withHdr]; rw [hLy, hLa, hLeq]
-    · simp
-    · simp [withHdr, hL]
-    · simp [withHdr, hL]
-    · intro i hi; simp [withHdr, hL] at hi
-  | grownRealloc c L L0 hd hLy hL0 hlen =>
-    have hd' : s.v.isDefault = false := hd
-    obtain ⟨b, hb, hl, hsl, hlc, hel, hinit⟩ := h.alloc hd'
-    have hal : (hsOf s.v s.sys.allocIdx).align = s.v.align := rfl
-    have hcp : (hsOf s.v s.sys.allocIdx).cap = s.v.cap := rfl
-    rw [hal] at hLy hL0
-    rw [hcp] at hL0
-    have hb0 : b.lay = L0 := by rw [hl] at hL0; exact Except.ok.inj hL0
-    have hLa : L.align = s.v.align := (make_layout_honest _ _ _ _ hLy).2.1
-    have hLeq : (⟨L.size, s.v.align⟩ : Layout) = L := by cases L; simp at hLa ⊢; exact hLa.symm
-    have hbl : b.lay.align = s.v.align := (make_layout_honest _ _ _ _ hl).2.1
-    have hLv : (hsOf s.v s.sys.allocIdx).L = s.v.len := by simp [GS.L, hsOf, hd']
-    simp only [GS.grown, hacts, List.nil_append, hb, ← hb0, replay_realloc_install]
-    refine ⟨_, rfl, .grown c _ _ _ _ ?_ rfl rfl rfl (by simp only [withHdr]; rw [hLv]; exact hel.symm)⟩
-    have hphys : c ≤ physSlots X.c ⟨L.size, b.lay.align⟩ := by
-      have := physSlots_ge X.env c s.v.align L hLy h.elem_pos
-      rw [hbl, hLeq]; exact this
-    have hold : s.v.cap ≤ b.slots.length := by rw [hsl]; exact physSlots_ge X.env _ _ _ hl h.elem_pos
-    refine ⟨h.elem_pos, fun hx => by simp [withHdr] at hx, fun _ => ⟨_, rfl, ?_, ?_, ?_, ?_, ?_⟩⟩
-    · simp only [withHdr]; rw [hal, hLy, hbl, hLeq]
-    · simp only; rw [resizeSlots_length]
-    · simp only [withHdr]; rw [hLv] at hlen ⊢; omega
-    · simp only [withHdr]; rw [hLv]; exact hel
-    · intro i hi
-      simp only [withHdr] at hi ⊢
-      rw [hLv] at hi hlen
-      rw [resizeSlots_get _ _ _ (by omega) (by omega)]
-      exact hinit i hi
+  obtain ⟨evs, hev⟩ := refusedReq_replay X.c s.sys s.v.blk req hreq
+  refine ⟨evs, ?_⟩
+  rw [lift_run, hg]
+  simp only [GS.refused, hacts, List.nil_append, hev]
+  show (_, ({ sys := _, v := withHdr (hsOf s.v s.sys.allocIdx) s.v.blk } : St)) = _
+  rw [hsame]
+
+/-- a program that ends having allocated the first block of a never-allocated handle -/
+theorem lift_grown_alloc {α} (X : Ctx) (g : GM α) (s : St) (c a : Nat) (L : Layout) (res : Except Panic α)
+    (h : Abs X s.v []) (hd : s.v.isDefault = true) (hLy : make_layout X.env c a = .ok L)
+    (hg : g (hsOf s.v s.sys.allocIdx) = (res, (hsOf s.v s.sys.allocIdx).grown c a (.alloc L.size L.align))) :
+    ∃ v' evs, VM.lift X g s = (res, { sys := s.sys.req evs true, v := v' }) ∧ Abs X v' [] ∧
+      v'.isDefault = false ∧ v'.cap = c ∧ v'.align = a ∧ v'.len = 0 := by
+  have hL : (hsOf s.v s.sys.allocIdx).L = 0 := by have := h.len_eq (k := s.sys.allocIdx); simpa using this
+  have hacts : (hsOf s.v s.sys.allocIdx).acts = [] := rfl
+  have hblk : s.v.blk = none := (h.sentinel hd).1
+  have hLa : L.align = a := (make_layout_honest _ _ _ _ hLy).2.1
+  have hLeq : (⟨L.size, a⟩ : Layout) = L := by cases L; simp at hLa ⊢; exact hLa.symm
+  rw [lift_run, hg]
+  simp only [GS.grown, hacts, List.nil_append, hblk, replay_alloc_install]
+  refine ⟨_, _, rfl, ?_, rfl, rfl, rfl, by simp [withHdr, hL]⟩
+  refine ⟨h.elem_pos, fun hx => by simp [withHdr] at hx, fun _ => ⟨_, rfl, ?_, ?_, ?_, ?_, ?_⟩⟩
+  · simp only [withHdr]; rw [hLy, hLa, hLeq]
+  · simp
+  · simp [withHdr, hL]
+  · simp [withHdr, hL]
+  · intro i hi; simp [withHdr, hL] at hi
+
+/-- a program that ends having reallocated the block, quoting its recorded layout -/
+theorem lift_grown_realloc {α} (X : Ctx) (g : GM α) (s : St) (es : List Elem) (c : Nat) (L L0 : Layout)
+    (res : Except Panic α) (h : Abs X s.v es) (hd : s.v.isDefault = false)
+    (hLy : make_layout X.env c s.v.align = .ok L) (hL0 : make_layout X.env s.v.cap s.v.align = .ok L0)
+    (hlen : es.length ≤ c)
+    (hg : g (hsOf s.v s.sys.allocIdx) =
+      (res, (hsOf s.v s.sys.allocIdx).grown c s.v.align (.realloc L0.size L0.align L.size))) :
+    ∃ v' evs, VM.lift X g s = (res, { sys := s.sys.req evs true, v := v' }) ∧ Abs X v' es ∧
+      v'.isDefault = false ∧ v'.cap = c ∧ v'.align = s.v.align ∧ v'.len = es.length := by
+  have hacts : (hsOf s.v s.sys.allocIdx).acts = [] := rfl
+  obtain ⟨b, hb, hl, hsl, hlc, hel, hinit⟩ := h.alloc hd
+  have hb0 : b.lay = L0 := by rw [hl] at hL0; exact Except.ok.inj hL0
+  have hLa : L.align = s.v.align := (make_layout_honest _ _ _ _ hLy).2.1
+  have hLeq : (⟨L.size, s.v.align⟩ : Layout) = L := by cases L; simp at hLa ⊢; exact hLa.symm
+  have hbl : b.lay.align = s.v.align := (make_layout_honest _ _ _ _ hl).2.1
+  have hLv : (hsOf s.v s.sys.allocIdx).L = s.v.len := by simp [GS.L, hsOf, hd]
+  rw [lift_run, hg]
+  simp only [GS.grown, hacts, List.nil_append, hb, ← hb0, replay_realloc_install]
+  refine ⟨_, _, rfl, ?_, rfl, rfl, rfl, by simp only [withHdr]; rw [hLv]; exact hel.symm⟩
+  have hphys : c ≤ physSlots X.c ⟨L.size, b.lay.align⟩ := by
+    have := physSlots_ge X.env c s.v.align L hLy h.elem_pos
+    rw [hbl, hLeq]; exact this
+  have hold : s.v.cap ≤ b.slots.length := by rw [hsl]; exact physSlots_ge X.env _ _ _ hl h.elem_pos
+  refine ⟨h.elem_pos, fun hx => by simp [withHdr] at hx, fun _ => ⟨_, rfl, ?_, ?_, ?_, ?_, ?_⟩⟩
+  · simp only [withHdr]; rw [hLy, hbl, hLeq]
+  · simp only; rw [resizeSlots_length]
+  · simp only [withHdr]; rw [hLv]; omega
+  · simp only [withHdr]; rw [hLv]; exact hel
+  · intro i hi
+    simp only [withHdr] at hi ⊢
+    rw [hLv] at hi
+    rw [resizeSlots_get _ _ _ (by omega) (by omega)]
+    exact hinit i hi
 
 /-- `grow` itself ends in one of the shapes (when called with the handle's own alignment) -/
 theorem grow_shape (E : Env) (gs : GS) (c a : Nat) (hf : gs.fresh = none) (hlen : gs.L ≤ c)
@@ -294,5 +285,355 @@ theorem pop_spec (X : Ctx) (s : St) (es : List Elem) (h : Abs X s.v es) :
       simp only at hi
       have := hinit i (by omega)
       rw [this, he, List.getElem?_append_left hi]
+
+/-! ### push -/
+
+theorem data_state (E : Env) (g : GS) : (data E g).2 = g := by
+  unfold data
+  simp only [GM.bind_run, GM.isDefault_run, GM.debugAssert, alignment_run, GM.liftE_run, GM.pure_run]
+  cases hd : g.isDefault with
+  | true => simp
+  | false =>
+    simp
+    cases next_aligned E hdrSize (g.A E) <;> rfl
+
+/-- the grow decision of `push` -/
+def pushGrow (E : Env) (gs : GS) : Except Panic Unit × GS :=
+  if gs.L = gs.C then
+    (match next_capacity E gs.C with
+     | .error p => (.error p, gs)
+     | .ok nc => grow E nc (gs.A E) gs)
+  else (.ok (), gs)
+
+theorem push_pre_run (E : Env) (gs : GS) :
+    push_pre E gs =
+      match pushGrow E gs with
+      | (.error p, g1) => (.error p, g1)
+      | (.ok _, g1) =>
+        (match data E g1 with
+         | (.ok d, g2) => (.ok (.cont ⟨gs.C, gs.A E, g1.L, d⟩), g2)
+         | (.error p, g2) => (.error p, g2)) := by
+  unfold push_pre pushGrow
+  simp only [len_run, capacity_run, alignment_run, GM.bind_run, GM.ite_run, beq_iff_eq, GM.liftE_run,
+    GM.pure_run]
+  by_cases hfull : gs.L = gs.C
+  · simp only [hfull, if_true]
+    cases hn : next_capacity E gs.C with
+    | error p => rfl
+    | ok nc =>
+      simp only
+      cases hg : grow E nc (gs.A E) gs with
+      | mk r g1 =>
+        cases r with
+        | error p => rfl
+        | ok u =>
+          simp only [len_run]
+          cases data E g1 with
+          | mk r2 g2 => cases r2 <;> rfl
+  · simp only [hfull, if_false, len_run]
+    cases data E gs with
+    | mk r2 g2 => cases r2 <;> rfl
+
+theorem pushGrow_shape (E : Env) (gs : GS) (hf : gs.fresh = none) (hlc : gs.L ≤ gs.C) :
+    GShape E gs (pushGrow E gs).2 ∧
+    (∀ req, (pushGrow E gs).2 = gs.refused req → req.refusedReq = true) := by
+  have hne : ∀ req, gs = gs.refused req → False := by
+    intro req hq
+    have : gs.allocIdx = (gs.refused req).allocIdx := by rw [← hq]
+    simp [GS.refused] at this
+  unfold pushGrow
+  by_cases hfull : gs.L = gs.C
+  · simp only [hfull, if_true]
+    cases hn : next_capacity E gs.C with
+    | error p => exact ⟨.same, fun req hr => (hne req hr).elim⟩
+    | ok nc =>
+      have hgt : gs.C < nc := by
+        rw [next_capacity_eq] at hn; split at hn <;> simp at hn
+        have := growFig_gt E.c gs.C; omega
+      apply grow_shape E gs nc _ hf (by omega)
+      intro hd; simp [GS.A, hd]
+  · simp only [hfull, if_false]
+    exact ⟨.same, fun req hr => (hne req hr).elim⟩
+
+theorem wr_abs (X : Ctx) (s : St) (es : List Elem) (h : Abs X s.v es) (hd : s.v.isDefault = false)
+    (b : Blk) (hb : s.v.blk = some b) (i : Nat) (hi : i < b.slots.length) (e : Elem) :
+    VM.wr (.at (dataOff s.v.align)) i e s =
+      (.ok (), { s with v := { s.v with blk := some { b with slots := b.slots.set i (some e) } } }) := by
+  obtain ⟨b', hb', hl, _, _, _, _⟩ := h.alloc hd
+  rw [hb] at hb'; cases hb'
+  have hal : b.lay.align = s.v.align := (make_layout_honest _ _ _ _ hl).2.1
+  unfold VM.wr VM.blockAt VM.putBlock
+  simp [hb, hal, hi]
+
+/-- a capacity the allocator granted is far below `usize::MAX` -/
+theorem Abs.cap_lt_W {X : Ctx} {v : VSt} {es : List Elem} (h : Abs X v es) (hd : v.isDefault = false) :
+    v.cap < W := by
+  obtain ⟨b, _, hl, _, _, _, _⟩ := h.alloc hd
+  obtain ⟨h1, _, h3⟩ := make_layout_honest _ _ _ _ hl
+  have hz := h.elem_pos
+  have : v.cap ≤ v.cap * X.c.elemSize := Nat.le_mul_of_pos_right _ hz
+  have hW : ISIZE_MAX < W := by decide
+  simp only [Ctx.env] at h1
+  omega
+
+theorem hdrLenAdd_run (X : Ctx) (s : St) (n : Nat) (hd : s.v.isDefault = false) (hlt : s.v.len + n < W) :
+    Vec.hdrLenAdd X n s = (.ok (), { s with v := { s.v with len := s.v.len + n } }) := by
+  unfold Vec.hdrLenAdd
+  rw [lift_run]
+  simp [GM.hdrLen, GM.setHdrLen, hsOf, hd, uadd, hlt, replay, replay1, withHdr]
+
+/-- the element write and length bump that end `push` -/
+theorem push_tail (X : Ctx) (s : St) (es : List Elem) (e : Elem) (h : Abs X s.v es)
+    (hd : s.v.isDefault = false) (hroom : s.v.len < s.v.cap) :
+    ∃ v', (do VM.wr (.at (dataOff s.v.align)) s.v.len e; Vec.hdrLenAdd X 1 : VM Unit) s =
+        (.ok (), { s with v := v' }) ∧ Abs X v' (es ++ [e]) ∧ v'.cap = s.v.cap ∧ v'.align = s.v.align ∧
+        v'.isDefault = false := by
+  obtain ⟨b, hb, hl, hs, hlc, hel, hinit⟩ := h.alloc hd
+  have hcapb : s.v.cap ≤ b.slots.length := by rw [hs]; exact physSlots_ge X.env _ _ _ hl h.elem_pos
+  have hi : s.v.len < b.slots.length := by omega
+  have h1 := wr_abs X s es h hd b hb s.v.len hi e
+  have hW := h.cap_lt_W hd
+  refine ⟨{ s.v with blk := some { b with slots := b.slots.set s.v.len (some e) }, len := s.v.len + 1 }, ?_, ?_, rfl, rfl, hd⟩
+  · simp only [VM.bind_run, h1]
+    exact hdrLenAdd_run X _ 1 hd (by show s.v.len + 1 < W; omega)
+  · refine ⟨h.elem_pos, fun hx => by simp [hd] at hx, fun _ => ⟨_, rfl, hl, by simp [hs], by simp; omega, by simp [hel], ?_⟩⟩
+    intro i hi'
+    simp only at hi' ⊢
+    by_cases heq : i = s.v.len
+    · subst heq
+      rw [List.getElem?_set_self hi]
+      rw [List.getElem?_append_right (by omega)]
+      simp [hel]
+    · have hlt : i < s.v.len := by omega
+      rw [List.getElem?_set_ne (by omega)]
+      rw [hinit i hlt, List.getElem?_append_left (by omega)]
+
+/-- every way the grow decision of `push` can end (explicit states) -/
+inductive PushGrow (E : Env) (gs : GS) : Except Panic Unit × GS → Prop
+  | room : gs.L < gs.C → PushGrow E gs (.ok (), gs)
+  | rejected (p : Panic) : p.unwinding = true → PushGrow E gs (.error p, gs)
+  | allocFailed (req : Action) : req.refusedReq = true → PushGrow E gs (.error .allocError, gs.refused req)
+  | grownAlloc (nc : Nat) (L : Layout) : gs.isDefault = true → 0 < nc → make_layout E nc (gs.A E) = .ok L →
+      PushGrow E gs (.ok (), gs.grown nc (gs.A E) (.alloc L.size L.align))
+  | grownRealloc (nc : Nat) (L L0 : Layout) : gs.isDefault = false → gs.L = gs.C → gs.C < nc →
+      make_layout E nc gs.align = .ok L → make_layout E gs.cap gs.align = .ok L0 →
+      PushGrow E gs (.ok (), gs.grown nc gs.align (.realloc L0.size L0.align L.size))
+
+theorem pushGrow_cases (E : Env) (gs : GS) (hf : gs.fresh = none) (hlc : gs.L ≤ gs.C) :
+    PushGrow E gs (pushGrow E gs) := by
+  unfold pushGrow
+  by_cases hfull : gs.L = gs.C
+  · rw [if_pos hfull]
+    cases hn : next_capacity E gs.C with
+    | error p =>
+      rw [next_capacity_eq] at hn; split at hn <;> simp at hn
+      subst hn; exact .rejected _ rfl
+    | ok nc =>
+      have hgt : gs.C < nc := by
+        rw [next_capacity_eq] at hn; split at hn <;> simp at hn
+        have := growFig_gt E.c gs.C; omega
+      simp only
+      rw [grow_spec E gs nc (gs.A E) hf, if_neg (by omega), if_neg (by omega)]
+      cases hLy : make_layout E nc (gs.A E) with
+      | error p => exact .rejected p (make_layout_error_unwinding _ _ _ _ hLy)
+      | ok L =>
+        cases hd : gs.isDefault with
+        | true =>
+          simp only [if_true]
+          cases hr : allocRefused E gs L.size with
+          | true => simp only [if_true]; exact .allocFailed _ rfl
+          | false =>
+            simp only [Bool.false_eq_true, if_false]
+            exact .grownAlloc nc L hd (by omega) hLy
+        | false =>
+          have hA : gs.A E = gs.align := by simp [GS.A, hd]
+          rw [hA] at hLy ⊢
+          simp only [Bool.false_eq_true, if_false]
+          cases hL0 : make_layout E gs.cap gs.align with
+          | error p => exact .rejected p (make_layout_error_unwinding _ _ _ _ hL0)
+          | ok L0 =>
+            cases hr : allocRefused E gs L.size with
+            | true => simp only [if_true]; exact .allocFailed _ rfl
+            | false =>
+              simp only [Bool.false_eq_true, if_false]
+              exact .grownRealloc nc L L0 hd hfull hgt hLy hL0
+  · rw [if_neg hfull]; exact .room (by omega)
+
+theorem unwinds_eq (p : Panic) : VM.unwinds p = p.unwinding := by cases p <;> rfl
+
+/-- a stop the safety theorems allow: unwinding panic, allocation-failure abort, double-panic abort -/
+def Panic.benign : Panic → Bool
+  | .overflow | .divZero | .explicit | .allocError | .doublePanic => true
+  | _ => false
+
+theorem dropElem_v (X : Ctx) (e : Elem) (s : St) :
+    ((VM.dropElem X e s).2.v = s.v) ∧
+    ((VM.dropElem X e s).1 = .ok () ∨ (VM.dropElem X e s).1 = .error .explicit) := by
+  unfold VM.dropElem
+  cases X.c.needsDrop with
+  | false => simp
+  | true =>
+    simp only [if_true, VM.bind_run, VM.emit, VM.callback]
+    split <;> simp
+
+theorem dropAll_v (X : Ctx) (es : List Elem) (s : St) :
+    ((VM.dropAll X es s).2.v = s.v) ∧
+    ((VM.dropAll X es s).1 = .ok () ∨ (VM.dropAll X es s).1 = .error .explicit ∨
+     (VM.dropAll X es s).1 = .error .doublePanic) := by
+  induction es generalizing s with
+  | nil => simp [VM.dropAll]
+  | cons e es ih =>
+    unfold VM.dropAll VM.guarded
+    have hd := dropElem_v X e s
+    cases hde : VM.dropElem X e s with
+    | mk r s1 =>
+      rw [hde] at hd
+      simp only at hd
+      have ih1 := ih s1
+      cases r with
+      | ok u =>
+        simp only
+        cases hda : VM.dropAll X es s1 with
+        | mk r2 s2 =>
+          rw [hda] at ih1; simp only at ih1
+          cases r2 with
+          | ok u2 => exact ⟨by rw [ih1.1, hd.1], .inl rfl⟩
+          | error q =>
+            refine ⟨by rw [ih1.1, hd.1], ?_⟩
+            rcases ih1.2 with h | h | h <;> simp at h <;> subst h <;> simp
+      | error p =>
+        have hp : p = .explicit := by rcases hd.2 with h | h <;> simp at h; exact h
+        subst hp
+        simp only [VM.unwinds, if_true]
+        cases hda : VM.dropAll X es s1 with
+        | mk r2 s2 =>
+          rw [hda] at ih1; simp only at ih1
+          cases r2 with
+          | ok u2 => exact ⟨by rw [ih1.1, hd.1], .inr (.inl rfl)⟩
+          | error q =>
+            refine ⟨by rw [ih1.1, hd.1], ?_⟩
+            rcases ih1.2 with h | h | h <;> simp at h <;> subst h <;> simp [VM.unwinds]
+
+/-- the ways `x` wrapped in `ownArgs` can end, given how `x` ends -/
+theorem ownArgs_ok {α} (X : Ctx) (args : List Elem) (x : VM α) (s s1 : St) (a : α)
+    (h : x s = (.ok a, s1)) : VM.ownArgs X args x s = (.ok a, s1) := by
+  unfold VM.ownArgs; rw [h]
+
+theorem ownArgs_err {α} (X : Ctx) (args : List Elem) (x : VM α) (s s1 : St) (p : Panic)
+    (h : x s = (.error p, s1)) (hb : Panic.benign p = true) :
+    ∃ q s2, VM.ownArgs X args x s = ((.error q : Except Panic α), s2) ∧ s2.v = s1.v ∧ Panic.benign q = true := by
+  unfold VM.ownArgs; rw [h]
+  simp only
+  by_cases hu : VM.unwinds p = true
+  · rw [if_pos hu]
+    have hd := dropAll_v X args s1
+    cases hda : VM.dropAll X args s1 with
+    | mk r s2 =>
+      rw [hda] at hd; simp only at hd
+      cases r with
+      | ok u => exact ⟨p, s2, rfl, hd.1, hb⟩
+      | error q =>
+        refine ⟨_, s2, rfl, hd.1, ?_⟩
+        rcases hd.2 with h | h | h <;> simp at h <;> subst h <;> simp [VM.unwinds, Panic.benign]
+  · rw [if_neg hu]; exact ⟨p, s1, rfl, rfl, hb⟩
+
+/-- every way `push` can end on a well-formed handle -/
+inductive PushRes (X : Ctx) (s : St) (es : List Elem) (e : Elem) : Except Panic Unit × St → Prop
+  | pushed (s' : St) : Abs X s'.v (es ++ [e]) → s'.v.isDefault = false → PushRes X s es e (.ok (), s')
+  | stopped (p : Panic) (s' : St) : s'.v = s.v → Panic.benign p = true → PushRes X s es e (.error p, s')
+
+theorem unwinding_benign (p : Panic) (h : p.unwinding = true) : Panic.benign p = true := by
+  cases p <;> simp [Panic.unwinding] at h <;> rfl
+
+/-- `push`: either the element is appended (everything else in place), or the call stops — by a
+    capacity-overflow panic or the allocation-failure abort — with the vector exactly as before;
+    never an illegal access, a failed internal assertion or a hang. -/
+theorem push_spec (X : Ctx) (s : St) (es : List Elem) (e : Elem) (h : Abs X s.v es) :
+    PushRes X s es e (Vec.push X e s) := by
+  have hL : (hsOf s.v s.sys.allocIdx).L = es.length := h.len_eq
+  have hlc : (hsOf s.v s.sys.allocIdx).L ≤ (hsOf s.v s.sys.allocIdx).C := by
+    cases hd : s.v.isDefault with
+    | true => simp [GS.L, GS.C, hsOf, hd]
+    | false =>
+      obtain ⟨_, _, _, _, hlc, _, _⟩ := h.alloc hd
+      simp [GS.L, GS.C, hsOf, hd, hlc]
+  have hpg := pushGrow_cases X.env (hsOf s.v s.sys.allocIdx) rfl hlc
+  have hrun := push_pre_run X.env (hsOf s.v s.sys.allocIdx)
+  unfold Vec.push
+  simp only [VM.bind_run]
+  generalize hout : pushGrow X.env (hsOf s.v s.sys.allocIdx) = out at hpg hrun
+  cases hpg with
+  | room hroom =>
+    have hd : s.v.isDefault = false := by
+      cases hd : s.v.isDefault
+      · rfl
+      · simp [GS.L, GS.C, hsOf, hd] at hroom
+    obtain ⟨b, hb, hl, hs, hlc', hel, hinit⟩ := h.alloc hd
+    have hdat := data_run X.env (hsOf s.v s.sys.allocIdx) hd b.lay s.v.cap hl
+    simp only [hdat] at hrun
+    have h1 : VM.lift X (push_pre X.env) s = (.ok (.cont ⟨_, _, _, _⟩), s) := lift_read X _ s _ hrun
+    rw [ownArgs_ok X [e] _ s s _ h1]
+    simp only
+    have hroom' : s.v.len < s.v.cap := by simpa [GS.L, GS.C, hsOf, hd] using hroom
+    obtain ⟨v', ht, habs, _, _, hd'⟩ := push_tail X s es e h hd hroom'
+    have hLv : (hsOf s.v s.sys.allocIdx).L = s.v.len := by simp [GS.L, hsOf, hd]
+    have hal : (hsOf s.v s.sys.allocIdx).align = s.v.align := rfl
+    simp only [hLv, hal]
+    rw [ht]
+    exact .pushed _ habs hd'
+  | rejected p hp =>
+    simp only at hrun
+    have h1 : VM.lift X (push_pre X.env) s = (.error p, s) := lift_read X _ s _ hrun
+    obtain ⟨q, s2, ho, hv, hq⟩ := ownArgs_err (α := Flow Env_push) X [e] _ s s p h1 (unwinding_benign p hp)
+    rw [ho]
+    exact .stopped q s2 hv hq
+  | allocFailed req hreq =>
+    simp only at hrun
+    obtain ⟨evs, h1⟩ := lift_refused X (push_pre X.env) s req _ hrun hreq
+    obtain ⟨q, s2, ho, hv, hq⟩ := ownArgs_err (α := Flow Env_push) X [e] _ s _ .allocError h1 rfl
+    rw [ho]
+    exact .stopped q s2 (by rw [hv]) hq
+  | grownAlloc nc L hd hnc hLy =>
+    have hd' : s.v.isDefault = true := hd
+    have hnil : es = [] := (h.sentinel hd').2
+    subst hnil
+    have hdat := data_run X.env ((hsOf s.v s.sys.allocIdx).grown nc ((hsOf s.v s.sys.allocIdx).A X.env) (.alloc L.size L.align))
+      rfl L nc (by simpa [GS.grown] using hLy)
+    simp only [hdat] at hrun
+    obtain ⟨v', evs, h1, habs, hvd, hvc, hva, hvl⟩ := lift_grown_alloc X (push_pre X.env) s nc _ L _ h hd' hLy hrun
+    rw [ownArgs_ok X [e] _ s _ _ h1]
+    simp only
+    have hroom' : v'.len < v'.cap := by omega
+    obtain ⟨v2, ht, habs2, _, _, hd2⟩ := push_tail X { sys := s.sys.req evs true, v := v' } [] e habs hvd hroom'
+    have e1 : ((hsOf s.v s.sys.allocIdx).grown nc ((hsOf s.v s.sys.allocIdx).A X.env) (.alloc L.size L.align)).L = v'.len := by
+      rw [grown_L, hL, hvl]; rfl
+    have e2 : ((hsOf s.v s.sys.allocIdx).grown nc ((hsOf s.v s.sys.allocIdx).A X.env) (.alloc L.size L.align)).align = v'.align := by
+      simp [GS.grown, hva]
+    simp only [e1, e2]
+    rw [ht]
+    exact .pushed _ habs2 hd2
+  | grownRealloc nc L L0 hd hfull hgt hLy hL0 =>
+    have hd' : s.v.isDefault = false := hd
+    have hal : (hsOf s.v s.sys.allocIdx).align = s.v.align := rfl
+    have hcp : (hsOf s.v s.sys.allocIdx).cap = s.v.cap := rfl
+    have hC : (hsOf s.v s.sys.allocIdx).C = s.v.cap := by simp [GS.C, hsOf, hd']
+    rw [hal] at hLy hL0
+    rw [hcp] at hL0
+    have hdat := data_run X.env ((hsOf s.v s.sys.allocIdx).grown nc s.v.align (.realloc L0.size L0.align L.size))
+      rfl L nc (by simpa [GS.grown] using hLy)
+    simp only [hal, hdat] at hrun
+    obtain ⟨v', evs, h1, habs, hvd, hvc, hva, hvl⟩ :=
+      lift_grown_realloc X (push_pre X.env) s es nc L L0 _ h hd' hLy hL0 (by rw [← hL, hfull, hC] ; omega) hrun
+    rw [ownArgs_ok X [e] _ s _ _ h1]
+    simp only
+    have hroom' : v'.len < v'.cap := by rw [hvl, hvc, ← hL, hfull, hC]; omega
+    obtain ⟨v2, ht, habs2, _, _, hd2⟩ := push_tail X { sys := s.sys.req evs true, v := v' } es e habs hvd hroom'
+    have e1 : ((hsOf s.v s.sys.allocIdx).grown nc s.v.align (.realloc L0.size L0.align L.size)).L = v'.len := by
+      rw [grown_L, hL, hvl]
+    have e2 : ((hsOf s.v s.sys.allocIdx).grown nc s.v.align (.realloc L0.size L0.align L.size)).align = v'.align := by
+      simp [GS.grown, hva]
+    simp only [e1, e2]
+    rw [ht]
+    exact .pushed _ habs2 hd2
 
 end MV
